@@ -555,10 +555,11 @@ impl Emitter {
                 }
 
                 // Skip comment processing AND `last_token` update for
-                // duplicated / stripped / skipped tokens — several emit
-                // helpers rely on `last_token` pointing at the most recent
-                // non-duplicated token.
-                if duplicated.is_some() || self.build_opt.strip_comments || self.skip_comment {
+                // duplicated / skipped tokens — several emit helpers rely
+                // on `last_token` pointing at the most recent
+                // non-duplicated token. (`strip_comments` is handled in
+                // `process_comment`: it must not freeze `last_token`.)
+                if duplicated.is_some() || self.skip_comment {
                     return;
                 }
 
@@ -573,7 +574,7 @@ impl Emitter {
     }
 
     fn process_comment(&mut self, x: &VerylToken, will_push: bool) {
-        if x.comments.is_empty() {
+        if self.build_opt.strip_comments || x.comments.is_empty() {
             return;
         }
         let mut cs: Vec<CommentDoc> = Vec::with_capacity(x.comments.len());
